@@ -973,9 +973,13 @@ func (s *Store) monitorLeaseAsPrimary(ctx context.Context, lease Lease) error {
 
 	waitDur := lease.TTL() / 2
 
+	// The next renewal is due at renewAt. Requests served in between (handoff
+	// attempts that fail) must not push it back.
+	renewAt := time.Now().Add(waitDur)
+
 	for {
 		select {
-		case <-time.After(waitDur):
+		case <-time.After(time.Until(renewAt)):
 			// Attempt to renew the lease. If the lease is gone then we need to
 			// just exit and we can start over or connect to the new primary.
 			//
@@ -993,11 +997,13 @@ func (s *Store) monitorLeaseAsPrimary(ctx context.Context, lease Lease) error {
 				// Otherwise log error and try again after a shorter period.
 				log.Printf("%s: lease renewal error, retrying: %s", FormatNodeID(s.id), err)
 				waitDur = time.Second
+				renewAt = time.Now().Add(waitDur)
 				continue
 			}
 
 			// Renewal was successful, restart with low frequency.
 			waitDur = lease.TTL() / 2
+			renewAt = time.Now().Add(waitDur)
 
 		case <-demoteCh:
 			demoted = true
@@ -1005,7 +1011,9 @@ func (s *Store) monitorLeaseAsPrimary(ctx context.Context, lease Lease) error {
 			return nil
 
 		case nodeID := <-lease.HandoffCh():
-			if err := s.processHandoff(ctx, nodeID, lease); err != nil {
+			if err := s.processHandoff(ctx, nodeID, lease); err == ErrLeaseExpired {
+				return err // the renewal before the handoff reported the lease gone
+			} else if err != nil {
 				log.Printf("%s: handoff unsuccessful, continuing as primary", FormatNodeID(s.id))
 				continue
 			}
